@@ -117,6 +117,11 @@ class Stream(pydyf.Stream):
     def set_state(self, state):
         key = f's{len(self._resources["ExtGState"])}'
         self._resources['ExtGState'][key] = state
+        # The state may change the alpha values set by set_alpha
+        if 'ca' in state:
+            self._current_alpha = None
+        if 'CA' in state:
+            self._current_alpha_stroke = None
         super().set_state(key)
 
     def set_alpha(self, alpha, stroke=False, fill=None):
